@@ -174,6 +174,8 @@ def build(spec):
         setattr(inst, member, objs if is_list else (objs[0] if objs else None))
     if spec.get('text') is not None:
         inst.text = spec['text']
+    for name, v in spec.get('ext_attrs', {}).items():
+        inst.extension_attributes[name] = v        # attributes the class does not declare (foreign or namespace-qualified look-alikes)
     return inst
 
 
